@@ -45,6 +45,7 @@ func runC17(c *core.Ctx) {
 	c.Rule("R2", "extracted transitions = the property's table; each transition notifies listeners once with matching callback/from/terminal flag", 8)
 	c.Rule("R3", "start/run/stop called once, in order; no run/stop after failed start; stop always after successful start; cancel dominates stop; main spawned only by New→Starting", 5)
 	c.Rule("R4", "both waiter channels are closed exactly once on every path", 2)
+	c.Rule("R5", "stateMu / Manager.mu guard the state, failure cause, listeners and name (lockset; transition closures inherit the lock)", 2)
 	c.Rule("R6", "listener channel capacity ≥ longest transition chain", 1)
 	c.Rule("R7", "failure cause overwritten by the stopping error only when nil", 1)
 	c.Rule("R8", "manager state decision table and healthy latch", 3)
@@ -150,6 +151,8 @@ func runC17(c *core.Ctx) {
 	}
 	c.Analysed(main.String())
 	c17Main(c, main, pkg, trans)
+	// ---- R5 lockset
+	c17Locks(c, pkg, bs, mg)
 	// ---- R6
 	c17Capacity(c, pkg)
 	// ---- R8 manager
@@ -645,4 +648,30 @@ func c17Manager(c *core.Ctx, pkgAny interface{}) {
 	c.Check(len(bad) == 0 && len(closes) >= 2, "R8", "manager:healthy-latch", fn.Pos(), fmt.Sprintf("%d close(healthyCh) sites: guarded by the latch outside the all-running case and each sets the latch; %v", len(closes), bad), n)
 	// lock
 	c.Check(lockedThroughout(fn, "recv.mu"), "R8", "manager:lock", fn.Pos(), "serviceStateChanged runs under m.mu from first to last statement", 1)
+}
+
+func c17Locks(c *core.Ctx, pkg *packages.Package, bs, mg *types.Named) {
+	guards := []an.Guard{
+		{Type: bs, Mutex: "stateMu", Fields: []string{"state", "failureCase", "listeners", "serviceName"}},
+		{Type: mg, Mutex: "mu", Fields: []string{"state", "byState", "healthyClosed", "listeners"}},
+	}
+	rep := an.Lockset(pkg, guards, an.LockOpts{ExemptFuncs: map[string]string{"NewBasicService": "constructor", "NewManager": "constructor: listeners are registered before the manager is returned"}})
+	for _, f := range rep.Findings {
+		acc := "read"
+		if f.Write {
+			acc = "write"
+		}
+		c.Viol("R5", "access:func="+f.Fn+":field="+f.Field, f.Pos, fmt.Sprintf("%s of %s without %s held (held %v; %s)", acc, f.Field, f.Need, f.Held, f.Reason))
+	}
+	for _, gd := range guards {
+		n := 0
+		for _, name := range gd.Fields {
+			if f := fieldOf(gd.Type, name); f != nil {
+				n += len(an.FieldAccesses(pkg, f))
+			} else {
+				c.Miss("R5", "field="+gd.Type.Obj().Name()+"."+name, "guarded field no longer exists")
+			}
+		}
+		c.Hold("R5", "mutex="+gd.Type.Obj().Name()+"."+gd.Mutex, pkg.Syntax[0].Pos(), fmt.Sprintf("%d accesses to %v, all with %s held (helpers with inferred requires-lock summaries: %v)", n, gd.Fields, gd.Mutex, rep.Requires), n)
+	}
 }
